@@ -8,7 +8,7 @@ package service
 // EndBlocker$3 = newRequestBatchHandler(requestContextID, requestContext): called for every entry of the new-batch queue at this height,
 // with the stored context (or the zero value if it is missing).
 //@ func EndBlocker$3
-//@ props C06 C09 C01 C11 C10 C12
+//@ props C06 C09 C01 C11 C10 C12 C20
 //@ modifies raw, bal, cblog
 //@ requires wf: WF(raw)
 //@ requires called_with_the_stored_context: ctxFound(raw, requestContextID) && requestContext == ctxOf(raw, requestContextID) && rng_RequestContext(requestContext)
@@ -42,7 +42,7 @@ package service
 
 // EndBlocker$1 = expiredRequestHandler(requestID, request): called for every still-pending request of an expired batch.
 //@ func EndBlocker$1
-//@ props C02 C04 C08 C16 C03
+//@ props C02 C04 C08 C16 C03 C20
 //@ preserves [C01,C02,C16] pending_requests_stay_well_formed: actInv(raw)
 //@ modifies raw, bal, supply
 //@ preserves wf: WF(raw)
@@ -64,7 +64,7 @@ package service
 
 // EndBlocker$2 = expiredRequestBatchHandler(requestContextID, requestContext): called for every entry of the expiry queue at this height.
 //@ func EndBlocker$2
-//@ props C16 C11 C10 C09 C12 C08 C02 C04
+//@ props C16 C11 C10 C09 C12 C08 C02 C04 C20
 //@ modifies raw, bal, supply, cblog
 //@ preserves wf: WF(raw)
 //@ preserves [C03] deposits_in_custody: depInv(raw, bal)
@@ -91,13 +91,13 @@ package service
 
 // ---------------------------------------------------------------- message handlers (C05: authority; a message debits only its signer)
 //@ func handleMsgDefineService
-//@ props C05 C15
+//@ props C05 C15 C20
 //@ modifies raw
 //@ ensures [C15] defines_once: err == NoErr ==> !defFound(old(raw), msg.Name) && raw == old(raw)[KDef(msg.Name) := raw[KDef(msg.Name)]]
 //@ ensures error_changes_nothing: err != NoErr ==> raw == old(raw)
 
 //@ func handleMsgBindService
-//@ props C05 C03 C14 C15
+//@ props C05 C03 C14 C15 C20
 //@ modifies raw, bal
 //@ preserves wf: WF(raw)
 //@ preserves [C03] deposits_in_custody: depInv(raw, bal)
@@ -109,7 +109,7 @@ package service
 //@ ensures error_changes_nothing: err != NoErr ==> raw == old(raw) && bal == old(bal)
 
 //@ func handleMsgUpdateServiceBinding
-//@ props C05 C03 C14
+//@ props C05 C03 C14 C20
 //@ modifies raw, bal
 //@ preserves wf: WF(raw)
 //@ preserves [C03] deposits_in_custody: depInv(raw, bal)
@@ -119,13 +119,13 @@ package service
 //@ ensures [C05] only_the_signer_is_debited: forall a Bytes, d Str :: {bal[a][d]} a != msg.Owner ==> bal[a][d] >= old(bal)[a][d]
 
 //@ func handleMsgSetWithdrawAddress
-//@ props C05 C13
+//@ props C05 C13 C20
 //@ modifies raw
 //@ ensures [C13,C05] only_the_signers_own_withdrawal_address_changes: raw == old(raw)[KWAddr(msg.Owner) := raw[KWAddr(msg.Owner)]] && withdrawAddrOf(raw, msg.Owner) == msg.WithdrawAddress
 //@ requires a2_validated: len(msg.WithdrawAddress) > 0
 
 //@ func handleMsgDisableServiceBinding
-//@ props C05 C03
+//@ props C05 C03 C20
 //@ modifies raw
 //@ preserves wf: WF(raw)
 //@ preserves [C03] deposits_in_custody: depInv(raw, bal)
@@ -133,7 +133,7 @@ package service
 //@ ensures error_changes_nothing: err != NoErr ==> raw == old(raw)
 
 //@ func handleMsgEnableServiceBinding
-//@ props C05 C03 C14
+//@ props C05 C03 C14 C20
 //@ modifies raw, bal
 //@ preserves wf: WF(raw)
 //@ preserves [C03] deposits_in_custody: depInv(raw, bal)
@@ -144,7 +144,7 @@ package service
 //@ ensures error_changes_nothing: err != NoErr ==> raw == old(raw) && bal == old(bal)
 
 //@ func handleMsgRefundServiceDeposit
-//@ props C05 C03
+//@ props C05 C03 C20
 //@ modifies raw, bal
 //@ preserves wf: WF(raw)
 //@ preserves [C03] deposits_in_custody: depInv(raw, bal)
@@ -154,7 +154,7 @@ package service
 
 //@ func handleMsgPauseRequestContext
 //@ preserves [C01,C02,C16,C11] pending_requests_stay_well_formed: actInv(raw)
-//@ props C05 C09
+//@ props C05 C09 C20
 //@ modifies raw
 //@ ensures [C05] only_the_consumer_and_never_a_module_context: err == NoErr ==> (let c := ctxOf(old(raw), msg.RequestContextId) in
 //@      ctxFound(old(raw), msg.RequestContextId) && addrEq(msg.Consumer, c.Consumer) && len(c.ModuleName) == 0)
@@ -164,7 +164,7 @@ package service
 
 //@ func handleMsgStartRequestContext
 //@ preserves [C01,C02,C16,C11] pending_requests_stay_well_formed: actInv(raw)
-//@ props C05 C09
+//@ props C05 C09 C20
 //@ modifies raw
 //@ ensures [C05] only_the_consumer_and_never_a_module_context: err == NoErr ==> (let c := ctxOf(old(raw), msg.RequestContextId) in
 //@      ctxFound(old(raw), msg.RequestContextId) && addrEq(msg.Consumer, c.Consumer) && len(c.ModuleName) == 0)
@@ -173,7 +173,7 @@ package service
 
 //@ func handleMsgKillRequestContext
 //@ preserves [C01,C02,C16,C11] pending_requests_stay_well_formed: actInv(raw)
-//@ props C05 C09
+//@ props C05 C09 C20
 //@ modifies raw
 //@ ensures [C05] only_the_consumer_and_never_a_module_context: err == NoErr ==> (let c := ctxOf(old(raw), msg.RequestContextId) in
 //@      ctxFound(old(raw), msg.RequestContextId) && addrEq(msg.Consumer, c.Consumer) && len(c.ModuleName) == 0)
@@ -183,7 +183,7 @@ package service
 
 //@ func handleMsgUpdateRequestContext
 //@ preserves [C01,C02,C16,C11] pending_requests_stay_well_formed: actInv(raw)
-//@ props C05 C09 C10
+//@ props C05 C09 C10 C20
 //@ modifies raw
 //@ requires a2_validated: msg.Timeout >= 0
 //@ requires stored_in_range: ctxFound(raw, msg.RequestContextId) ==> rng_RequestContext(ctxOf(raw, msg.RequestContextId)) && ctxOf(raw, msg.RequestContextId).BatchCounter < 9223372036854775808
@@ -194,9 +194,10 @@ package service
 //@ ensures error_changes_nothing: err != NoErr ==> raw == old(raw)
 
 //@ func handleMsgRespondService
-//@ props C05 C08 C02
+//@ props C05 C08 C02 C20
 //@ modifies raw, bal, supply, cblog
-//@ maypanic
+//@ requires [C20] slash_and_refund_can_be_paid: requestFound(raw, msg.RequestId) ==> (!hasNeg(bindOf(raw, reqSvc(raw, msg.RequestId), reqProv(raw, msg.RequestId)).Deposit, slashBurn(raw, msg.RequestId)) &&
+//@      canPay(bal, depositAcc, slashBurn(raw, msg.RequestId)) && canPay(bankBurn(bal, depositAcc, slashBurn(raw, msg.RequestId)), requestAcc, reqFee(raw, msg.RequestId)))
 //@ preserves wf: WF(raw)
 //@ preserves [C03] deposits_in_custody: depInv(raw, bal)
 //@ requires binding_of_request_exists: requestFound(raw, msg.RequestId) ==> bindFound(raw, reqSvc(raw, msg.RequestId), reqProv(raw, msg.RequestId))
@@ -208,10 +209,20 @@ package service
 //@      ==> err != NoErr && raw == old(raw) && bal == old(bal) && supply == old(supply)
 
 //@ func handleMsgWithdrawEarnedFees
-//@ props C05 C13
+//@ props C05 C13 C20
 //@ modifies raw, bal
 //@ requires a3_signer_address: len(msg.Owner) == 20
 //@ requires owner_total_covers_provider: forall d Str :: pfxSum(raw, POwnerEarned(msg.Owner), d) >= pfxSum(raw, PEarned(msg.Provider), d)
 //@ requires recorded_earnings_nonneg: forall d Str :: pfxSum(raw, PEarned(msg.Provider), d) >= 0 && pfxSum(raw, POwnerEarned(msg.Owner), d) >= 0
 //@ ensures [C05] only_the_provider_owner: err == NoErr && len(msg.Provider) > 0 ==> addrEq(msg.Owner, ownerOf(old(raw), msg.Provider))
 //@ ensures [C05] only_the_escrow_is_debited: err == NoErr ==> (forall a Bytes, d Str :: {bal[a][d]} a != requestAcc ==> bal[a][d] >= old(bal)[a][d])
+
+// ---------------------------------------------------------------- zero-height export preparation (C19)
+//@ func PrepForZeroHeightGenesis
+//@ props C19
+//@ modifies raw, bal
+//@ maypanic
+//@ requires records_match_their_keys: wfEarned(raw)
+//@ ensures [C19] every_pending_fee_and_every_earning_returned: bal == refundEarnedIt(refundIt(old(bal), old(raw), PAllAct, itCount(old(raw), PAllAct)), old(raw), PAllEarned, itCount(old(raw), PAllEarned))
+//@ ensures [C19] every_context_paused_with_no_batch_in_flight: forall k Key :: {raw[k]} raw[k] == ((is_KCtx(k) && old(raw)[k] != bnil)
+//@      ? enc_RequestContext(dec_RequestContext(old(raw)[k])[State := PAUSED][BatchState := BATCHCOMPLETED][BatchRequestCount := 0][BatchResponseCount := 0]) : old(raw)[k])
